@@ -892,6 +892,89 @@ def check_ladders(env, res, n):
 
 
 # --------------------------------------------------------------------------
+# 4a. the run phase in-process: StepsRunner.run_step_groups with every group's step list ending as scripted
+# --------------------------------------------------------------------------
+
+def gen_group_end(rng, tag, allow_nothing=True):
+    k = rng.choice(['nothing'] * (3 if allow_nothing else 0) + ['stop', 'stopPipeline', 'stopStepGroup', 'keyboardInterrupt',
+                                                              'keyboardInterrupt', 'error', 'error', 'systemExit', 'baseOther'])
+    if k == 'error':
+        return {'kind': 'error', 'ty': rng.choice(['ValueError', 'RuntimeError', 'MyOwnError', 'OSError', 'ContextError']),
+                'msg': f'{tag}: ' + rng.choice(MSGS)}
+    if k == 'systemExit':
+        c = rng.choice([0, None, 3, 1, 130, 255, 256, {'text': 'bye now'}])
+        return {'kind': 'systemExit', 'code': c}
+    if k == 'baseOther':
+        return {'kind': 'baseOther', 'ty': rng.choice(['MyBase', 'GeneratorExit']), 'msg': f'{tag} base'}
+    return {'kind': k}
+
+
+def check_runphase_inproc(env, res, n):
+    """model `runStepGroups` vs the real StepsRunner over scripted group endings; monitor from the property text: an
+    interrupt that leaves a step of the main groups / the success group must be what leaves run_step_groups (else the
+    command cannot exit 130), whatever the failure group does; an interrupt inside the failure handler likewise."""
+    drv, rng = env.driver, env.rng
+    kinds = ['nothing', 'stop', 'stopPipeline', 'stopStepGroup', 'keyboardInterrupt', 'error', 'systemExit', 'baseOther']
+    E = {'kind': 'error', 'ty': 'ValueError', 'msg': 'orig'}
+    fix = {'nothing': {'kind': 'nothing'}, 'stop': {'kind': 'stop'}, 'stopPipeline': {'kind': 'stopPipeline'},
+           'stopStepGroup': {'kind': 'stopStepGroup'}, 'keyboardInterrupt': {'kind': 'keyboardInterrupt'}, 'error': E,
+           'systemExit': {'kind': 'systemExit', 'code': 0}, 'baseOther': {'kind': 'baseOther', 'ty': 'MyBase', 'msg': 'bb'}}
+    handler_err = {'kind': 'error', 'ty': 'OSError', 'msg': 'handler broke'}
+    scripts = []
+    # directed: every kind in main / success x every handler ending (incl. none, a missing group, an error of its own)
+    for b in kinds:
+        for h in [None, 'missing'] + [fix[k] for k in kinds if k != 'error'] + [handler_err]:
+            scripts.append(([fix[b]], None, h))
+            scripts.append(([fix['nothing'], fix['stopStepGroup'], fix[b], E], fix['nothing'], h))
+            if b != 'nothing':
+                scripts.append(([fix['nothing']], fix[b], h))
+    directed = len(scripts)
+    while len(scripts) < max(n, directed):
+        mains = [gen_group_end(rng, f'g{i}') for i in range(rng.choice([1, 1, 2, 3, 4]))]
+        success = rng.choice([None, 'missing', gen_group_end(rng, 'success'), gen_group_end(rng, 'success')])
+        failure = rng.choice([None, 'missing', gen_group_end(rng, 'failure'), gen_group_end(rng, 'failure'),
+                              gen_group_end(rng, 'failure', allow_nothing=False)])
+        scripts.append((mains, success, failure))
+    for mains, success, failure in scripts:
+        case = {'kind': 'runphase-inproc', 'mains': mains, 'success': success, 'failure': failure}
+        w = lambda r: None if r in (None, 'missing') else r
+        try:
+            m = drv.ask('cli.runphase', mains=mains, success=w(success), failure=w(failure))
+        except common.Reject:
+            res.count('runphase-inproc:outside-model')
+            continue
+        o = impl.run_step_groups_obs(mains, success, failure)
+        res.case(case, nontrivial=True)
+        res.count(f"runphase-inproc:body={m['body']}:handler={'none' if w(failure) is None else failure['kind']}")
+        mstarted = [f'g{i}' for i in range(m['mains_started'])] + (['success'] if m['success_started'] else []) + \
+                   (['failure'] if m['handler_runs'] else [])
+        mv = {'leaves': m['leaves'], 'started': mstarted}
+        if mv != o:
+            res.mismatch(case, mv, o)
+        # ---- monitor (independent of the model): walk the script the way the statement reads
+        body = {'kind': 'nothing'}
+        for r in mains:
+            if r['kind'] not in ('nothing', 'stopStepGroup'):
+                body = r
+                break
+        else:
+            if w(success) is not None and success['kind'] != 'stopStepGroup':
+                body = success
+        if body['kind'] == 'keyboardInterrupt' and o['leaves']['kind'] != 'keyboardInterrupt':
+            res.violation(case, f"a KeyboardInterrupt leaves a step of the main / success groups, the failure group ends with "
+                          f"{failure if w(failure) else 'nothing (none given)'}: run_step_groups "
+                          f"{'returns normally' if o['leaves']['kind'] == 'nothing' else 'raises ' + json.dumps(o['leaves'])} - "
+                          f"the command cannot exit 130 (groups started: {o['started']})",
+                          signature={**SIG_INTERRUPT, 'part': 'run_step_groups', 'handler': 'none' if w(failure) is None else failure['kind']},
+                          impl=o)
+        if body['kind'] == 'error' and w(failure) is not None and failure['kind'] == 'keyboardInterrupt' and \
+                o['leaves']['kind'] != 'keyboardInterrupt':
+            res.violation(case, f"an error in the steps, then a KeyboardInterrupt inside the failure handler: run_step_groups "
+                          f"leaves with {json.dumps(o['leaves'])} - the command cannot exit 130",
+                          signature={**SIG_INTERRUPT, 'part': 'run_step_groups', 'handler': 'interrupted'}, impl=o)
+
+
+# --------------------------------------------------------------------------
 # 4b. exit status: a fault in every phase of cli.main, in-process
 # --------------------------------------------------------------------------
 
@@ -1236,6 +1319,202 @@ def probe_case(rng):
                        **({'type': 'ValueError', 'msg': 'probe failure'} if failed else {})},
             'raised': {'kind': 'error', 'ty': 'ValueError', 'msg': 'probe failure'} if failed else None,
             'sigint': False, 'parser': parser, 'ctx_args': ctx}
+
+
+# --------------------------------------------------------------------------
+# 5a'. the run phase x the failure handler: WHAT leaves a step of the main groups / the success group / the failure
+#      group (KeyboardInterrupt raised by a custom step module, a real SIGINT at a parked step, sys.exit(3), another
+#      BaseException, an ordinary error) x HOW the failure handler in effect ends (absent, completes, stop,
+#      stoppipeline, stopstepgroup, fails too) x default groups / --groups --success --failure
+# --------------------------------------------------------------------------
+
+RAISERS = {
+    'ki-mod': ('work/raiser_ki.py', "def run_step(context):\n    raise KeyboardInterrupt()\n", {'kind': 'keyboardInterrupt'}),
+    'sysexit3': ('work/raiser_exit.py', "import sys\n\n\ndef run_step(context):\n    sys.exit(3)\n", {'kind': 'systemExit', 'code': 3}),
+    'base': ('work/raiser_base.py', "class MyBase(BaseException):\n    pass\n\n\ndef run_step(context):\n    raise MyBase('bb')\n",
+             {'kind': 'baseOther', 'ty': 'MyBase', 'msg': 'bb'}),
+    'error': ('work/raiser_err.py', "def run_step(context):\n    raise ValueError('orig')\n", {'kind': 'error', 'ty': 'ValueError', 'msg': 'orig'}),
+    'sigint': ('work/blocker.py', BLOCKMOD['work/blocker.py'], {'kind': 'keyboardInterrupt'}),
+}
+RP_ENDS = {'completed': {'kind': 'nothing'}, 'stop': {'kind': 'stop'}, 'stopPipeline': {'kind': 'stopPipeline'},
+           'stopStepGroup': {'kind': 'stopStepGroup'}, 'fails-too': {'kind': 'error', 'ty': 'OSError', 'msg': 'handler broke'}}
+RP_POSITIONS = ('main', 'main2', 'main2-after-stopstepgroup', 'success')
+SIG_INTERRUPT = {'part': 'process', 'term': 'interrupt', 'clause': 'status-130'}
+
+
+def runphase_case(what, position, handler_end, custom):
+    """One pipeline: every group = [probe(name), <what happens there>, probe(name-after)]."""
+    mod_file, mod_src, raised = RAISERS[what]
+    files = {mod_file: mod_src}
+    step = os.path.basename(mod_file)[:-3]
+
+    def grp(name, wire, raiser=None):
+        mid = []
+        if raiser is not None:
+            mid = [raiser]
+        elif wire['kind'] == 'stop':
+            mid = ['pypyr.steps.stop']
+        elif wire['kind'] == 'stopPipeline':
+            mid = ['pypyr.steps.stoppipeline']
+        elif wire['kind'] == 'stopStepGroup':
+            mid = ['pypyr.steps.stopstepgroup']
+        elif wire['kind'] == 'error':
+            mid = [raise_step(wire['ty'], wire['msg'])]
+        return [probe_step(name)] + mid + [probe_step(name + '-after')]
+    NOTHING = {'kind': 'nothing'}
+    g1, g2, su, fa = ('g1', 'g2', 's1', 'f1') if custom else ('steps', None, 'on_success', 'on_failure')
+    body, mains, main_names = {}, [], []
+    ERR = RAISERS['error'][2]
+    if position == 'failure':
+        # an ordinary error in the main group; `what` happens inside the failure handler
+        body[g1] = grp(g1, ERR, raise_step('ValueError', 'orig'))
+        mains, main_names = [ERR], [g1]
+        body[su] = grp(su, NOTHING)
+        success = NOTHING
+        body[fa] = grp(fa, raised, step)
+        failure = raised
+    else:
+        if position in ('main2', 'main2-after-stopstepgroup'):
+            if not custom:
+                return None
+            first = NOTHING if position == 'main2' else {'kind': 'stopStepGroup'}
+            body[g1] = grp(g1, first)
+            body[g2] = grp(g2, raised, step)
+            mains, main_names = [first, raised], [g1, g2]
+        elif position == 'main':
+            body[g1] = grp(g1, raised, step)
+            mains, main_names = [raised], [g1]
+            if custom:
+                body[g2] = grp(g2, NOTHING)
+                mains, main_names = [raised, NOTHING], [g1, g2]
+        else:
+            body[g1] = grp(g1, NOTHING)
+            mains, main_names = [NOTHING], [g1]
+        if position == 'success':
+            body[su] = grp(su, raised, step)
+            success = raised
+        else:
+            body[su] = grp(su, NOTHING)
+            success = NOTHING
+        if handler_end == 'absent':
+            failure = None
+            if not custom:
+                pass            # the pipeline simply has no on_failure group
+        else:
+            failure = RP_ENDS[handler_end]
+            body[fa] = grp(fa, failure)
+    argv = ['pipe']
+    if custom:
+        argv += ['--groups'] + main_names + ['--success', su]
+        if failure is not None:
+            argv += ['--failure', fa]
+        else:
+            body['on_failure'] = grp('on_failure', {'kind': 'stop'})     # exists, but is not the handler of this run
+    files['work/pipe.yaml'] = json.dumps(body, indent=1)
+    return {'kind': 'proc', 'family': 'runphase', 'variant': f"{what}/{position}/{handler_end}/{'custom' if custom else 'default'}",
+            'what': what, 'position': position, 'handler_end': handler_end, 'custom': custom, 'files': files, 'argv': argv,
+            'sigint': what == 'sigint', 'mains': mains, 'main_names': main_names, 'success': success, 'success_name': su,
+            'failure': failure, 'failure_name': fa if failure is not None else None}
+
+
+def runphase_cases(env, full):
+    rng = env.rng
+    ends = ['absent'] + list(RP_ENDS)
+    everything = []
+    for what in RAISERS:
+        for pos in RP_POSITIONS:
+            for end in ends:
+                for custom in (False, True):
+                    everything.append((what, pos, end, custom))
+    for what in RAISERS:
+        if what != 'error':
+            for custom in (False, True):
+                everything.append((what, 'failure', 'n/a', custom))
+    if full:
+        chosen = everything
+    else:
+        chosen = []
+        for k, end in enumerate(ends):
+            # an interrupt raised by a step module: every handler ending x every position; a real SIGINT: rotating
+            for j, pos in enumerate(RP_POSITIONS):
+                chosen.append(('ki-mod', pos, end, pos != 'main' and (pos != 'success' or (k + j) % 2 == 0)))
+            chosen.append(('ki-mod', 'main', end, True))
+            chosen.append(('sigint', RP_POSITIONS[k % len(RP_POSITIONS)], end, True))
+            chosen.append(('sigint', 'main', end, False))
+            chosen.append(('error', ('main', 'success')[k % 2], end, k % 2 == 0))
+        for what in ('sysexit3', 'base'):
+            chosen += [(what, 'main', 'stop', False), (what, 'success', 'stopStepGroup', True), (what, 'main2', 'completed', True)]
+        chosen += [(w, 'failure', 'n/a', i % 2 == 0) for i, w in enumerate(('ki-mod', 'sigint', 'sysexit3', 'base'))]
+        rest = [c for c in everything if c not in chosen]
+        chosen += rng.sample(rest, 10)
+    out, seen = [], set()
+    for spec in chosen:
+        if spec in seen:
+            continue
+        seen.add(spec)
+        c = runphase_case(*spec)
+        if c is not None:
+            out.append(c)
+    return out
+
+
+def judge_runphase(env, res, c, o):
+    case = dict(c)
+    res.case(case, nontrivial=True)
+    res.count(f"proc:runphase:{c['what']}:{c['position'].split('-')[0]}:{c['handler_end']}")
+    res.count('proc-status:' + str(o['status']))
+    trace = [p['g'] for p in o['probe']]
+    brief = {'status': o['status'], 'stderr_tail': o['stderr'][-500:], 'trace': trace}
+    where = {'main': 'the first main group', 'main2': 'the second group of --groups',
+             'main2-after-stopstepgroup': 'the second group of --groups (the first ended by stopstepgroup)',
+             'success': 'the success group', 'failure': 'the failure group (after an error in the steps)'}[c['position']]
+    handler = ('no failure group in effect' if c['failure'] is None else
+               f"failure group {c['failure_name']!r} " + (f"ends: {c['handler_end']}" if c['position'] != 'failure' else 'is where it happens'))
+    # ---- monitor, from the property text: 130 on keyboard interrupt - whatever the failure handler contains; 0 exactly
+    #      when ran to completion or ended by a Stop instruction; 255 when an error escaped
+    interrupted = c['what'] in ('ki-mod', 'sigint')
+    reached = any(t == (c['failure_name'] if c['position'] == 'failure' else
+                        c['success_name'] if c['position'] == 'success' else c['main_names'][-1 if c['position'] != 'main' else 0])
+                  for t in trace)
+    if interrupted and reached:
+        how = 'a KeyboardInterrupt raised by a step' if c['what'] == 'ki-mod' else 'a real SIGINT while a step is running'
+        if o['status'] != 130:
+            res.violation(case, f"{how} in {where}; {handler}: exit status {o['status']}, expected 130 "
+                          f"(`{' '.join(['pypyr'] + c['argv'])}`; groups that ran: {trace})",
+                          signature={**SIG_INTERRUPT, 'what': c['what'], 'handler': 'stop-family' if c['handler_end'] in
+                                     ('stop', 'stopPipeline', 'stopStepGroup') else c['handler_end']}, impl=brief)
+    elif c['what'] == 'error' and reached:
+        want = 0 if c['handler_end'] in ('stop', 'stopPipeline', 'stopStepGroup') else 255
+        if o['status'] != want:
+            res.violation(case, f"ValueError raised by a step in {where}; {handler}: exit status {o['status']}, expected {want}",
+                          signature={'part': 'process', 'term': 'error-x-handler', 'clause': f'status-{want}',
+                                     'handler': c['handler_end']}, impl=brief)
+        elif want == 255 and '\033[91mValueError: orig' not in o['stderr']:
+            res.violation(case, f"ValueError('orig') raised by a step in {where}; {handler}: stderr lacks 'ValueError: orig'",
+                          signature={'part': 'process', 'term': 'error-x-handler', 'clause': 'stderr-type-message',
+                                     'handler': c['handler_end']}, impl=brief)
+    elif o['status'] == 0 and reached:
+        res.violation(case, f"{c['what']} in {where}; {handler}: exit status 0 although the run neither completed nor was ended "
+                      f"by a Stop instruction in its steps (groups that ran: {trace})",
+                      signature={'part': 'process', 'term': 'base-x-handler', 'clause': 'exit-0-iff-completed-or-stopped',
+                                 'what': c['what']}, impl=brief)
+    # ---- model: run_step_groups over what leaves each group
+    m = env.driver.ask('cli.runphase', mains=c['mains'], success=c['success'], failure=c['failure'])
+
+    def gtrace(name, wire):
+        return [name] + ([name + '-after'] if wire['kind'] == 'nothing' else [])
+    mtrace = []
+    for name, wire in list(zip(c['main_names'], c['mains']))[:m['mains_started']]:
+        mtrace += gtrace(name, wire)
+    if m['success_started']:
+        mtrace += gtrace(c['success_name'], c['success'])
+    if m['handler_runs']:
+        mtrace += gtrace(c['failure_name'], c['failure'])
+    status = o['status']
+    mv = {'status': m['status'], 'trace': mtrace, 'stderr_contains': m['stderr']}
+    rv = {'status': status, 'trace': trace, 'stderr_contains': m['stderr'] if m['stderr'] in o['stderr'] else o['stderr'][-300:]}
+    if mv != rv:
+        res.mismatch(case, {**mv, 'leaves_run': m['leaves_run']}, brief)
 
 
 # --------------------------------------------------------------------------
@@ -1966,6 +2245,8 @@ def check_procs(env, res, cases):
             judge_seqrun(env, res, c, o)
         elif c.get('family') == 'parsefail':
             judge_parsefail(env, res, c, o)
+        elif c.get('family') == 'runphase':
+            judge_runphase(env, res, c, o)
         else:
             judge_proc(env, res, c, o)
 
@@ -2027,10 +2308,14 @@ def run(env, res):
                 'x args_in x dict_in; shortcuts: directed + generated config.shortcuts tables x API calls through '
                 'Pipeline.new_pipe_and_args (every key absent/null/empty/set, out-of-domain kinds counted); exit ladders '
                 'in-process: every kind x type x message x log level, SystemExit(code) for 21 codes and other '
-                'BaseExceptions; real processes: generated pipelines per way of termination (ok, '
+                'BaseExceptions; StepsRunner.run_step_groups in-process on pipelines whose groups end as scripted (every kind of exit '
+                'in 1-4 main groups / the success group x every ending of the failure group, none, a missing group); real processes: generated pipelines per way of termination (ok, '
                 'stop/stoppipeline/stopstepgroup in 8 positions, error kinds x log levels for the traceback, SIGINT in 11 '
                 'positions), sys.exit(code) / BaseException raised by a step in 12 positions (probe steps after it, on_success, '
-                'on_failure must not run), --version/-h, shortcuts from a pypyr-config.yaml, and end-to-end pass-through '
+                'on_failure must not run), the run phase x the failure handler (KeyboardInterrupt from a custom step module / real '
+                'SIGINT at a parked step / sys.exit(3) / another BaseException / an error, in the first or second main group, the '
+                'success group or the failure group x handler absent / completes / stop / stoppipeline / stopstepgroup / fails too x '
+                'default groups or --groups --success --failure: 130 on interrupt whatever the handler contains), --version/-h, shortcuts from a pypyr-config.yaml, and end-to-end pass-through '
                 'probes written with abbreviations / = / dash-leading arguments; a fault in every phase of the command: '
                 'in-process cli.main with scripted raises from config.init / set_root_logger / below Pipeline.run, alone '
                 'and in pairs; real processes with broken config files / $PYPYR_CONFIG_GLOBAL / pyproject.toml / '
@@ -2050,10 +2335,11 @@ def run(env, res):
     check_shortcuts(env, res, 500 if q else 12000)
     check_ladders(env, res, 60 if q else 1000)
     check_phase_ladders(env, res, 120 if q else 3000)
+    check_runphase_inproc(env, res, 400 if q else 6000)
     pf = parsefail_cases(env, full=not q)
     check_api_runs(env, res, [c for c in pf if c['via'] == 'api'])
     check_procs(env, res, base_cases(env, full=not q) + exit0_cases(env, full=not q) + shortcut_proc_cases(env, full=not q) +
-                seqrun_cases(env, full=not q) + [c for c in pf if c['via'] == 'cli'] +
+                seqrun_cases(env, full=not q) + [c for c in pf if c['via'] == 'cli'] + runphase_cases(env, full=not q) +
                 fault_cases(env, full=not q) + proc_cases(env, full=not q))
     order_findings(res)
 
@@ -2080,3 +2366,4 @@ def replay(env, res, case):
         check_shortcuts(env, res, 300)
         check_ladders(env, res, 60)
         check_phase_ladders(env, res, 120)
+        check_runphase_inproc(env, res, 400)
